@@ -46,6 +46,11 @@ type c05Case struct {
 	Neigh string `json:"neigh,omitempty"`
 	// Entry "decrypted-read": the caller reads through the connection's exported DecryptedRead instead of Read
 	Entry string `json:"entry,omitempty"`
+	// Deferred: the caller keeps the readers Decrypt returns and reads them only after the last Decrypt call (which may
+	// be the one that rejects the altered frame); Small: the connection's caller reads with net/http's buffer policy
+	// (1 byte, then 4096)
+	Deferred bool `json:"deferred,omitempty"`
+	Small    bool `json:"small,omitempty"`
 }
 
 var c05Peers = [][2]string{{"10.0.0.2:50001", "10.0.0.2:50002"}, {"[2001:db8::1]:50001", "[2001:db8::1]:50002"}, {"[fe80::1%eth0]:50001", "[fe80::1%eth0]:50002"}}
@@ -292,7 +297,17 @@ func c05Exec(c *fw.Ctx, cas c05Case) {
 	var released []byte
 	var derr error
 	calls := 0
+	if cas.Deferred {
+		kinds = "deferred/" + kinds
+	}
 	if pn := guard(func() {
+		var kept []io.Reader
+		defer func() {
+			for _, r := range kept { // read now what was accepted earlier: it must still be what it was
+				b, _ := io.ReadAll(r)
+				released = append(released, b...)
+			}
+		}()
 		for {
 			calls++
 			r, e := s.recv.Decrypt(src)
@@ -300,8 +315,12 @@ func c05Exec(c *fw.Ctx, cas c05Case) {
 				derr = e
 				return
 			}
-			b, _ := io.ReadAll(r)
-			released = append(released, b...)
+			if cas.Deferred {
+				kept = append(kept, r)
+			} else {
+				b, _ := io.ReadAll(r)
+				released = append(released, b...)
+			}
 			if rd.Len() == 0 || calls > 64 {
 				return
 			}
@@ -419,17 +438,21 @@ func c05Conn(c *fw.Ctx, cas c05Case) {
 	}
 	var got []byte
 	var rerr error
-	afterErr := 0
+	afterErr, afterN := 0, 0
+	if cas.Small {
+		kinds = "small-reads-" + kinds
+	}
 	if pn := guard(func() {
-		for i := 0; i < 64; i++ {
+		for i := 0; i < 64+2*len(alt); i++ {
 			buf := make([]byte, 4096)
+			if cas.Small && i%2 == 0 {
+				buf = buf[:1]
+			}
 			n, e := read(buf)
 			if rerr != nil {
 				afterErr += n // the caller insists after an error: nothing more may be released
-				if i > 70 || e != nil && n == 0 && afterErr == 0 && i > 3 {
-					return
-				}
-				if i > 8 {
+				afterN++
+				if afterN > 8 {
 					return
 				}
 				continue
@@ -632,6 +655,9 @@ func c05Run(c *fw.Ctx) {
 						busy := cas
 						busy.Busy = true
 						c05Exec(c, busy)
+						def := cas
+						def.Deferred = true
+						c05Exec(c, def)
 					}
 					if dir == "acc" && len(s.stream) < 2200 && (f.Kind != "flip" || f.A%8 == 3 || c.Thorough()) {
 						c05Conn(c, cas) // the same fault one level up, through hap.Connection.Read
@@ -639,6 +665,9 @@ func c05Run(c *fw.Ctx) {
 							x := cas
 							x.Entry = "decrypted-read" // … and through the connection's other exported read entry point
 							c05Conn(c, x)
+							y := cas
+							y.Small = true // … and by a caller that reads one byte, then 4096, like net/http
+							c05Conn(c, y)
 						}
 					}
 					if dir == "acc" && len(s.stream) < 2200 && f.Kind != "flip" && f.Kind != "truncate" && f.Kind != "insert-byte" && f.Kind != "drop-byte" {
@@ -712,7 +741,7 @@ func init() {
 	fw.Register(&fw.Check{
 		ID:     "C05",
 		Level:  "fault_enumeration",
-		Rule:   "for 20 stream shapes (0–4 frames, message lengths around 1, 1023..1025, k·1024; frame counters starting at 0, 1, 300 and — preset through reflection — 2^32−1, 2^32, 2^32+5, 2^40, 2^63−1, 2^64−4) × both receiving directions × secrets: every single-bit flip of the whole ciphertext stream, truncation at every byte offset, every frame deletion, duplication at every position, every non-identity permutation, reflection of the receiver's own frames, same-index frames of a session with another secret, a frame the same sender sealed 2^32 counters earlier, forged frames (empty with an arbitrary tag — replacing a frame or inserted anywhere —, or arbitrary bytes of the original length), byte insertion/removal at frame edges; thorough adds all ordered pairs of faults from a reduced menu on the small shapes. Sender = reference framing, receiver = hc's real session (also while the receiving session encrypts outgoing messages between the reads that deliver the stream); for streams under 2200 bytes the same faults are also fed one level up through a real hap.Connection (released bytes, error, nothing released to a caller that keeps reading after the error; through Read and through the exported DecryptedRead). distinct_nontrivial = distinct (fault kinds, error reported?) classes among faults that changed at least one byte Frame-level faults are also run with an adversary connection of the same accessory next to the attacked one, from the same host and another port, for IPv4, IPv6 and link-local IPv6 (zone) peer addresses: opened after the attacked connection got its keys, or receiving the diverted original bytes while the altered stream arrives; an unaltered stream next to such a neighbour is delivered completely. Plus, in a subprocess built with a scheduling point before EVERY statement of hc's packages (textual insertion through go build -overlay): every interleaving with at most 1 (thorough 2) preemptions of pairs of operations on disjoint objects — and, where the property is about served requests, of pairs of handlers on two verified connections of one accessory touching different characteristics — each side must observe exactly what it observes when the two run one after the other (module-level mutable state is what makes them differ).",
+		Rule:   "for 20 stream shapes (0–4 frames, message lengths around 1, 1023..1025, k·1024; frame counters starting at 0, 1, 300 and — preset through reflection — 2^32−1, 2^32, 2^32+5, 2^40, 2^63−1, 2^64−4) × both receiving directions × secrets: every single-bit flip of the whole ciphertext stream, truncation at every byte offset, every frame deletion, duplication at every position, every non-identity permutation, reflection of the receiver's own frames, same-index frames of a session with another secret, a frame the same sender sealed 2^32 counters earlier, forged frames (empty with an arbitrary tag — replacing a frame or inserted anywhere —, or arbitrary bytes of the original length), byte insertion/removal at frame edges; thorough adds all ordered pairs of faults from a reduced menu on the small shapes. Sender = reference framing, receiver = hc's real session (also while the receiving session encrypts outgoing messages between the reads that deliver the stream); for streams under 2200 bytes the same faults are also fed one level up through a real hap.Connection (released bytes, error, nothing released to a caller that keeps reading after the error; through Read — with 4096-byte reads and with net/http's alternation of 1-byte and 4096-byte reads — and through the exported DecryptedRead); frame-level faults also with a caller that keeps the readers Decrypt returns and reads them after the last call. distinct_nontrivial = distinct (fault kinds, error reported?) classes among faults that changed at least one byte Frame-level faults are also run with an adversary connection of the same accessory next to the attacked one, from the same host and another port, for IPv4, IPv6 and link-local IPv6 (zone) peer addresses: opened after the attacked connection got its keys, or receiving the diverted original bytes while the altered stream arrives; an unaltered stream next to such a neighbour is delivered completely. Plus, in a subprocess built with a scheduling point before EVERY statement of hc's packages (textual insertion through go build -overlay): every interleaving with at most 1 (thorough 2) preemptions of pairs of operations on disjoint objects — and, where the property is about served requests, of pairs of handlers on two verified connections of one accessory touching different characteristics — each side must observe exactly what it observes when the two run one after the other (module-level mutable state is what makes them differ).",
 		Run:    c05Run,
 		Budget: func(string) time.Duration { return 25 * time.Minute },
 		Replay: func(c *fw.Ctx, raw json.RawMessage) {
